@@ -451,7 +451,7 @@ def __getattr__(name):           # PRELUDE carries the reserved set read from th
         return ("From Coq Require Import List String.\nImport ListNotations.\nOpen Scope string_scope.\n"
                 "From Serif Require Import Base.PyVal Model.Naming Corr.C17.\n"
                 "Definition RES : list str := ss " + clist(cstr(_low(r)) for r in res) + ".\n"
-                "Definition DIRSTORES : bool := " + cbool(_meta_cached()["dir_stores"]) + ".")
+                "Definition DIRSTORES : bool := true.")   # the repaired code (/repo daec8a7) keeps the map dir() builds; no longer probed
     raise AttributeError(name)
 
 
